@@ -497,6 +497,12 @@ struct ChunkCase {
     seed: u64,
 }
 
+/// Container label for signatures: the fixture's file extension ("signed:x.mp3|audio/mpeg" -> "mp3").
+fn ext_label(op: &IoOp) -> String {
+    let f = op.file.split('|').next().unwrap_or(&op.file);
+    f.rsplit('.').next().unwrap_or("x").to_lowercase()
+}
+
 fn judge_chunk(run: &Run, c: &ChunkCase, selftest: bool) -> CaseResult {
     let (want, mask) = match reference(&c.op) {
         Ok(r) => r,
@@ -520,7 +526,7 @@ fn judge_chunk(run: &Run, c: &ChunkCase, selftest: bool) -> CaseResult {
     match exec(&c.op, &sw, &dw, false).result {
         Err(p) => Err(Fail::new(format!("C35:panic:{}", vh::core::panic_site(&p)), format!("{what}: panic {p}"))),
         Ok(Err(e)) => Err(Fail::new(
-            format!("C35:chunked-{}-{}-fails-{}", c.op.kind, c.target, error_variant(&e)),
+            format!("C35:chunked-{}-{}-{}-fails-{}", c.op.kind, ext_label(&c.op), c.target, error_variant(&e)),
             format!("{what}: the plain-cursor run succeeds but the chunked run fails: {e:?}"),
         )),
         Ok(Ok(got)) => {
@@ -532,7 +538,7 @@ fn judge_chunk(run: &Run, c: &ChunkCase, selftest: bool) -> CaseResult {
                 Ok(())
             } else {
                 Err(Fail::new(
-                    format!("C35:chunked-{}-{}-{}-differs", c.op.kind, c.target, got.diff(&want)),
+                    format!("C35:chunked-{}-{}-{}-{}-differs", c.op.kind, ext_label(&c.op), c.target, got.diff(&want)),
                     format!("{what}: result {} differs in {} from the plain-cursor result {} [{}]", got.brief(), got.diff(&want), want.brief(), got.report_diff(&want)),
                 ))
             }
@@ -614,7 +620,7 @@ fn judge_fault(run: &Run, c: &FaultCase, selftest: bool) -> CaseResult {
             // operation saw a shorter asset, not an error.
             let eof_like = fired_on == Some(OpKind::Read) && matches!(c.plan.kind, FaultKind::ShortZero | FaultKind::UnexpectedEof);
             let signing = c.op.kind == "sign" || c.op.kind == "hashflow";
-            let label = if signing { format!("-{}", c.op.file.rsplit('.').next().unwrap_or("x").to_lowercase()) } else { String::new() };
+            let label = if signing { format!("-{}", ext_label(&c.op)) } else { String::new() };
             if eof_like {
                 if signing {
                     // The SDK signed the view that ended at the premature end-of-file. Recorded, not judged.
